@@ -17,10 +17,6 @@ def jobs(tier):
             witnesses=['long block accepted','trackonly accepted','blocksize'],models=['M-bitpack','mapping decode cut to its verdict'],
             functions=['vorbis_synthesis','vorbis_synthesis_trackonly','vorbis_packet_blocksize','vorbis_synthesis_halfrate'],
             bounds='packet 0..2 bytes (prologue is <= 9 bits), modes 1..64, <=2 channels, block sizes (%d,%d)'%(1<<e0,1<<e1),weight=2,mem_est=7))
-    for dimc,mm in ([(1,3),(2,5)] if q else [(1,3),(2,5),(3,7),(1,5)]):
-        J.append(Job('K-floor0-d%d'%dimc,'C02/k_floor0.c',defs=['-DMMAX=%d'%mm,'-DNBK=3','-DDIMC=%d'%dimc],unwind=18,unwindset=[('ov_ilog',None,34)],checks=['leak'],
-            witnesses=['coefficients decoded','unused / end of packet','three or more vectors'],models=BS+['vorbis_book_decodev_set cut (arbitrary floats / EOP)'],functions=['floor0_inverse1','floor0_look','floor0_free_look'],
-            bounds='order <= %d, book dimension %d, <=3 codebooks, packet <= 40 bytes; books[] beyond numbooks arbitrary'%(mm,dimc),weight=3))
     nb=2 if q else 3
     J.append(Job('S-init-retry','C02/s_init_retry.c',defs=['-DNB=%d'%nb],unwind=max(nb,2)+2,unwindset=[('vorbis_info_clear',r'i<ci->books',nb+1),('ov_ilog',None,34)],checks=['leak'],object_bits=10,
         witnesses=['first init failed','retry failed'],models=['codebook construction cut to "fails or builds" (contract)','M-dsp constructors'],
@@ -29,9 +25,10 @@ def jobs(tier):
     J.append(Job('P-quantvals','C02/p_quantvals.c',defs=['-DEMAX=%d'%em,'-DDMAX=%d'%dm],unwind=dm+2,unwindset=[('_book_maptype1_quantvals',r'while\(1\)',6)],
         witnesses=['degenerate book','guess corrected'],models=['M-libm: pow returns any value within +-2 of the root'],functions=['_book_maptype1_quantvals'],
         bounds='entries 0..%d, dim 0..%d (incl. 0)'%(em,dm),weight=3,solver='kissat'))
-    for ent,guess in ([(2,1),(3,3)] if q else [(1,1),(2,1),(2,3),(3,2),(3,3)]):
-        J.append(Job('P-quantvals-highdim-e%d-g%d'%(ent,guess),'C02/p_quantvals.c',defs=['-DENTC=%d'%ent,'-DGUESSC=%d'%guess,'-DDLO=2','-DDHI=130'],unwind=132,unwindset=[('_book_maptype1_quantvals',r'while\\(1\\)',6)],
-            witnesses=['dim >= 64'],models=['libm guess fixed to %d'%guess],functions=['_book_maptype1_quantvals'],bounds='entries %d, guess %d, dim 2..130'%(ent,guess),weight=1))
+    for ent,guess,dim in ([(2,1,64),(3,3,65)] if q else [(1,1,64),(2,1,64),(2,3,63),(3,2,100),(3,3,65),(2,2,127)]):
+        J.append(Job('P-quantvals-highdim-e%d-g%d-d%d'%(ent,guess,dim),'C02/p_quantvals.c',defs=['-DENTC=%d'%ent,'-DGUESSC=%d'%guess,'-DDLO=%d'%dim,'-DDHI=%d'%dim],unwind=132,unwindset=[('_book_maptype1_quantvals',r'while\\(1\\)',6)],
+            witnesses=['dim >= 64'] if dim>=64 else [],witness=(dim>=64),models=['libm guess fixed to %d'%guess],functions=['_book_maptype1_quantvals'],
+            bounds='concrete configuration entries %d, guess %d, dim %d (with symbolic dim or entries the 64-bit divisions exhaust 12 GB): termination and value where (vals+1)^dim overflows 64 bits'%(ent,guess,dim),weight=1))
     return J
 CLAIM={'text':'Assume-guarantee chain of bounded model checks on the real packet-level decoder: header parsers on arbitrary input as producers of validity predicates (codebook, residue; comment via C16) with leak checks on every reject path, the lattice-size kernel incl. dim==0, the audio packet prologue against the specification for every packet, decoder init/retry/clear histories, and the accumulator step (vorbis_synthesis_blockin/pcmout/read) as an inductive step from every valid state.',
  'note':'Trusted: M-bitsrc over-approximates packet contents for parsers; M-bitpack for the prologue; contract stubs at the cuts listed per harness; allocation failure out of scope. Bounds per job (entries <= 3-4, partitions <= 4-8, packets <= 19-24 bytes...). NOT yet covered (planned in DESIGN section 3 C02, not built): floor0/floor1/mapping parsers, _vorbis_unpack_books, vorbis_book_init_decode and Huffman decode, floor/residue/mapping inverse kernels, stack budget (alloca) monitor. The claim is therefore memory safety and termination of the listed units only, not of the whole packet API.'}
